@@ -12,7 +12,6 @@ import (
 	"bytes"
 	"context"
 	"fmt"
-	"math"
 	"math/rand/v2"
 	"runtime/debug"
 	"sort"
@@ -1307,7 +1306,7 @@ func TestVerifC33(t *testing.T) {
 		"with 25-100 contract-respecting ops each; distinct = distinct layout content; non-trivial = >= 2 levels holding entries, " +
 		">= 1 range tombstone or >= 2 files in a level, and >= 50 ops compared against the filter-and-sort model")
 	r.Assume("testkeys.Comparer ordering and Split; the sstable writer/reader, memTable and FakeIter children are the real ones and trusted to iterate their own content")
-	n := vcommon.Scale(5000, 120000)
+	n := vcommon.Scale(10000, 120000)
 	r.Cases(n, func(i int, rng *rand.Rand) {
 		lay, pool, gs := verifC33GenLayout(rng)
 		var sessions []*verifC33Session
@@ -1378,6 +1377,24 @@ func TestVerifC33(t *testing.T) {
 		r.Count("sstables_built", int64(nFiles))
 		r.Count("tombstone_pieces", int64(nTombs))
 		r.Count("tombstone_pieces_at_file_bound", int64(env.boundTombs))
+		// What the tombstone pieces cover among the points they can delete
+		// (older levels, or the same level with a smaller seqnum).
+		for _, tb := range tombs {
+			cand, cov := 0, 0
+			for _, e := range ents {
+				if e.Lvl > tb.Lvl || (e.Lvl == tb.Lvl && e.Seq < tb.Seq) {
+					cand++
+					if verifC33Cmp(tb.Start, e.K) <= 0 && verifC33Cmp(e.K, tb.End) < 0 {
+						cov++
+					}
+				}
+			}
+			if cov == 0 {
+				r.Count("tombstone_pieces_covering_nothing", 1)
+			} else if cov == cand {
+				r.Count("tombstone_pieces_covering_every_older_point", 1)
+			}
+		}
 		if gs.crossFileTombs > 0 {
 			r.Count("layouts_tombstone_crossing_file_boundary", 1)
 		}
@@ -1399,5 +1416,4 @@ func TestVerifC33(t *testing.T) {
 			r.Sample(map[string]any{"layout": lay, "snapshot": s.Snapshot, "first_ops": ops})
 		}
 	})
-	_ = math.MaxInt
 }
